@@ -413,9 +413,14 @@ def replay(scn, labels, check=True, stop_on_violation=True):
                     return out
         hashes.append(env.state_hash_of(snap, scn.extra_state(),
                                         keep_clock=scn.hash_clock))
-    ch = env.enabled_choices()
-    ch.extend(scn.externals())
-    if not ch and env.next_clock_event() is None and check:
+    # same rule as Explorer._explore: a quiescent state is a terminal state
+    # of the run in which no further command / fault comes, also when
+    # externals are still on offer
+    t = env.next_clock_event()
+    quiet = not env.enabled_choices() and (
+        t is None or (t > scn.horizon_clock and
+                      getattr(scn, 'horizon_is_terminal', False)))
+    if quiet and check:
         key, v = scn.check_terminal(snap, Ctx(path, [], [], [], True))
         out['outcome'] = key
         out['violations'].extend(v)
